@@ -17,8 +17,12 @@ class SubInput(edzed.Input):
     """a trivial subclass, as an application would write it to add a method or a default"""
 
 
-class SubInputExp(edzed.InputExp):
+class MidInputExp(edzed.InputExp):
     """ditto"""
+
+
+class SubInputExp(MidInputExp):
+    """... and a subclass of that one: what the library class defines is inherited through every level"""
 
 
 def mk_validators(t):
